@@ -45,7 +45,7 @@ func richProgram() *idl.Program {
 		{Struct: &idl.Struct{Kind: "struct", Name: "Big", Annots: ann, Fields: []*idl.Field{
 			fld(1, "a", "required", T("i32")), fld(2, "b", "default", T("zeta.Thingzeta")), fld(3, "c", "optional", T("TC")), fld(4, "d", "default", Map(T("Color"), List(T("mid.Idmid")))),
 			{ID: 5, Name: "e", Req: "default", Type: Map(T("string"), T("i32")), Default: idl.LMap([]*idl.Lit{idl.Str("q"), idl.Str("b"), idl.Str("k")}, []*idl.Lit{idl.Int(1), idl.Int(2), idl.Int(3)}), Annots: ann}}}},
-		{Struct: &idl.Struct{Kind: "union", Name: "Pick", Fields: []*idl.Field{fld(1, "x", "default", T("i64")), fld(2, "y", "default", T("string")), fld(3, "z", "default", T("Big"))}}},
+		{Struct: &idl.Struct{Kind: "union", Name: "Pick", Fields: []*idl.Field{fld(1, "x", "default", T("i64")), fld(2, "y", "optional", T("string")), fld(3, "z", "default", T("Big"))}}},
 		{Struct: &idl.Struct{Kind: "exception", Name: "Oops", Fields: []*idl.Field{fld(1, "why", "default", T("string"))}}},
 		{Service: &idl.Service{Name: "Zsvc", Extends: "alpha.Basealpha", Annots: ann, Methods: []*idl.Method{{Name: "one", Ret: T("Big"), Args: []*idl.Field{fld(1, "p", "default", T("Pick"))}, Throws: []*idl.Field{fld(1, "o", "default", T("Oops")), fld(2, "e", "default", T("mid.Errmid"))}, Annots: ann}, {Name: "two", Oneway: true, Annots: ann4}}}},
 		{Service: &idl.Service{Name: "Asvc", Methods: []*idl.Method{{Name: "three", Args: []*idl.Field{fld(1, "k", "default", T("zeta.Kindzeta"))}, Annots: ann4}}}},
@@ -278,6 +278,37 @@ func runC19(res *result) {
 				if d := diffTrees(ref, h); d != "" {
 					fail("repetition-dependent", fmt.Sprintf("in-process compilation #%d differs from the first separate process: %s", rep+1, d))
 				}
+			}
+		}
+		// (4) one process that has compiled the same program for another target just before
+		if ref != nil {
+			for pi, prev := range []string{"go", "java", "dart", "py", "html", "json"} {
+				if prev == strings.SplitN(gen, ":", 2)[0] {
+					continue
+				}
+				out := filepath.Join(base, fmt.Sprintf("after%d", pi))
+				res.Evaluations++
+				var err error
+				func() {
+					defer func() {
+						if r := recover(); r != nil {
+							err = fmt.Errorf("panic: %v", r)
+						}
+					}()
+					if err = compiler.Compile(compiler.Options{File: filepath.Join(srcA, "main.frugal"), Gen: prev, Out: out + "prev", Delim: ".", Recurse: true}); err == nil {
+						err = compiler.Compile(compiler.Options{File: filepath.Join(srcA, "main.frugal"), Gen: gen, Out: out, Delim: ".", Recurse: true})
+					}
+				}()
+				if err != nil {
+					fail("compile-failed", "in-process compilation after -gen "+prev+": "+err.Error())
+					continue
+				}
+				h, _ := hashTree(out)
+				if d := diffTrees(ref, h); d != "" {
+					fail("history-dependent", fmt.Sprintf("compiled in a process that had compiled the same program with -gen %s just before, the output differs from a fresh process: %s", prev, d))
+				}
+				os.RemoveAll(out)
+				os.RemoveAll(out + "prev")
 			}
 		}
 		if len(res.Samples) < 3 {
